@@ -54,6 +54,11 @@ CHECKS = {
     technique='exhaustive crash-point enumeration of a fixed 26-operation workload on the real engine: every SQL statement/transaction boundary in process, and (thorough) a kill at every file-mutating syscall of the server process under strace fault injection; each survivor recovered by a fresh engine and compared with the reference states',
     text='A workload covering every state-changing operation the property names (Create, CreateKeyPair, Register of all seven object types with names/groups/application info, DeriveKey, Activate, Revoke, Destroy from several states, Set/Modify/DeleteAttribute in 1.x and 2.0 form, a batch) runs on the real engine. Quick: at every begin / before+after write statement / commit / rollback event and at request-received / before-response / after-acknowledge instants (316 points) the database and journal files are copied, which is exactly what a kill -9 leaves. Thorough: additionally the workload runs as a subprocess that is SIGKILLed on entry to its N-th pwrite64/fsync/fdatasync/ftruncate/unlink, for every N an un-faulted run performs (634 points). Every survivor must be opened and listed by a fresh KmipEngine, every listed object must be readable, every object must have all rows of its class chain, and with a operations acknowledged the observable store must equal reference state S_a or S_a+1 of an uncrashed run.',
     note='Process death, not power loss (page cache survives); torn single writes are outside the property. Values produced by OpenSSL RSA generation are compared by size only. Orphan per-class rows left by Destroy are unobservable and ignored. One fixed workload: crash points of operations or parameter shapes outside it are not covered.'),
+ 'C01': dict(
+    category='exploration', design_ref='DESIGN.md 4/C01, 2.3, 2.7',
+    technique='deviation-bounded exhaustive enumeration of constructible codec values (shape registry discovered from the constructors: presence lattice + value sweeps per class, boundary menus for primitives, request and server-emitted response messages) x 6 KMIP versions, judged by round-trip, idempotence, purity and an independent TTLV implementation',
+    text='For each of 155 encodable structure/payload classes the value universe is discovered from the library itself (every constructor parameter is offered a typed universal menu; parameters without validation take the class their reader instantiates; attribute values come from a hand list). Enumerated per class and per KMIP version 1.0-2.0: all subsets of optional fields (n <= 10, else sizes 0,1,2,n-1,n) and every parameter through every admissible candidate with the other fields once absent and once full (about 50k round trips). Oracles: decoding the encoding succeeds, re-encoding reproduces the bytes, the decoded value equals the original by the class\'s own __eq__ (modulo fields the version does not define, proven by another version writing them), a set field reaches the wire under some version, encoding does not change the value (same bytes again after all versions). Primitives: hand-written boundary menus (length mod 8, sign/width boundaries, non-ASCII) under three tags, byte-identical to an independent TTLV encoder. Whole request messages for 34 operation shapes x header variants, and every response a real server emitted for a 52-request history, are decoded/encoded/decoded.',
+    note='A refusal to encode (exception) is accepted for structures because per-field version tables are not modelled here (C16 covers the version-conditional fields the server uses); it is a violation for primitives. Classes without __eq__ are compared through their re-encoding. Values outside the discovered menus are not covered.'),
 }
 
 NOT_YET = {}
